@@ -22,6 +22,7 @@ func vC32Run(n int) {
 	var verifiers []*BLS0ChainScheme
 	var hashes, presented []string
 	allGenuine := true
+	var shiftSum int64
 	for i := 0; i < n; i++ {
 		k := NewBLS0ChainScheme()
 		if err := k.GenerateKeys(); err != nil {
@@ -37,6 +38,7 @@ func vC32Run(n int) {
 		if c != 0 {
 			allGenuine = false
 		}
+		shiftSum += c
 		pub := NewBLS0ChainScheme()
 		if err := pub.SetPublicKey(k.GetPublicKey()); err != nil {
 			panic(err)
@@ -69,7 +71,12 @@ func vC32Run(n int) {
 	if allGenuine {
 		sym.Assert(ok, "a batch of genuine signatures is accepted")
 	}
-	sym.Assert(!ok || individually, "the batched check accepts only when every signature is individually valid (invalid signatures that cancel each other out are rejected)")
+	if shiftSum != 0 {
+		sym.Cover("errors-do-not-cancel")
+		sym.Assert(!ok, "the batched check rejects a set of signatures whose errors do not cancel (every signature, in every batch including a trailing partial one, takes part)")
+	} else {
+		sym.Assert(!ok || individually, "the batched check accepts only when every signature is individually valid (invalid signatures that cancel each other out are rejected)")
+	}
 }
 
 func VerifC32_batch2() { vC32Run(2) }
